@@ -8,7 +8,9 @@ Virtual time is a `Nat` number of milliseconds (`timingwheel` works in whole mil
 * `Scheduler.task()` — clamp `after`/`interval` to the tick (only when there is no cron
   expression), `unlockUnregisterTask(name)` (closes and removes a same-named task), insert the new
   task, `wheel.ScheduleFunc(task, task.caller)`;
-* `schedulerTask.Next` / `caller` / `close`, `UnregisterTask`, `Clear`, `Close`;
+* `schedulerTask.Next` / `caller` / `close`, `UnregisterTask`, `Clear`, `Close` (after the second `fix:`
+  commit `1e829e9`: idempotent, does not wait for the wheel's goroutines, and a closed scheduler
+  ignores new registrations);
 * `timingwheel.ScheduleFunc`: the timer's closure first asks `Next(t.expiration)` and re-adds the
   timer, then calls `f` (= `task.caller`).
 
@@ -80,7 +82,7 @@ structure Sched where
   nobjs : Nat
   objs : Nat → Task
   table : Nat → Option Nat     -- `s.tasks`: name ↦ index of the task object
-  stopped : Bool               -- `wheel.Stop()` has been called
+  stopped : Bool               -- `s.closed`: `Close()` has been called (the wheel is stopped)
   log : List Firing            -- newest first
 
 inductive Out where
@@ -132,6 +134,18 @@ def Task.close (t : Task) : Task :=
   else if t.total ≤ 0 ∨ (t.trigger : Int) < t.total then ({ t with kill := true } : Task).stop
   else { t with kill := true }
 
+/-- `ScheduleFunc(task, f)`: `expiration := s.Next(now)`; a nil timer when it is the zero time -/
+def Task.schedule (t : Task) (now : Nat) : Task :=
+  match t.next now with
+  | some e => { t.bump with timer := .pending e }
+  | none => t.bump
+
+/-- first half of the closure `ScheduleFunc` gives the timer: `Next(t.expiration)` and re-add -/
+def Task.fire (t : Task) (e : Nat) : Task :=
+  match t.next e with
+  | some e' => { t.bump with timer := .pending e' }
+  | none => { t.bump with timer := .idle }
+
 /-! ## `Scheduler` -/
 
 /-- `unlockUnregisterTask(name)` -/
@@ -142,19 +156,31 @@ def unregister (s : Sched) (name : Nat) : Sched :=
 
 def clampMs (tick : Nat) (d : Int) : Nat := if d < (tick : Int) then tick else d.toNat
 
+/-- the clamping at the top of `task()`: only without a cron expression -/
+def durMs (tick : Nat) (cron : Option Nat) (d : Int) : Nat :=
+  match cron with
+  | none => clampMs tick d
+  | some _ => d.toNat
+
+/-- `s.tasks[name] = task` for a new task object -/
+def addTask (s : Sched) (name : Nat) (t : Task) : Sched :=
+  { s with objs := upd s.objs s.nobjs t, nobjs := s.nobjs + 1, table := upd s.table name (some s.nobjs) }
+
+/-- the `&schedulerTask{…}` literal of `task()` -/
+def Task.fresh (name a iv : Nat) (times : Int) (cron : Option Nat) (now : Nat) : Task :=
+  { name := name, after := a, interval := iv, total := times, cron := cron, trigger := 0,
+    kill := false, timer := .unset, base := now }
+
 /-- `task(name, after, interval, expr, times, …)`.  `cron = some p` stands for `expr != nil`
     (no clamping then; the callers pass `after = interval = 0`). -/
-def register (s : Sched) (name : Nat) (after interval : Int) (cron : Option Nat) (times : Int) : Sched :=
-  let a := match cron with | none => clampMs s.tick after | some _ => after.toNat
-  let iv := match cron with | none => clampMs s.tick interval | some _ => interval.toNat
-  let t : Task := { name := name, after := a, interval := iv, total := times, cron := cron, trigger := 0,
-                    kill := false, timer := .unset, base := s.now }
+def registerLive (s : Sched) (name : Nat) (after interval : Int) (cron : Option Nat) (times : Int) : Sched :=
+  let t := Task.fresh name (durMs s.tick cron after) (durMs s.tick cron interval) times cron s.now
   let s1 := unregister s name
-  -- `ScheduleFunc`: `expiration := s.Next(now)`; nil timer when it is the zero time
-  let t1 : Task := match t.next s1.now with
-    | some e => { t.bump with timer := .pending e }
-    | none => t.bump
-  { s1 with objs := upd s1.objs s1.nobjs t1, nobjs := s1.nobjs + 1, table := upd s1.table name (some s1.nobjs) }
+  addTask s1 name (t.schedule s1.now)
+
+/-- `task()` begins with `if s.closed { return }` (since `1e829e9`) -/
+def register (s : Sched) (name : Nat) (after interval : Int) (cron : Option Nat) (times : Int) : Sched :=
+  if s.stopped then s else registerLive s name after interval cron times
 
 /-- the tasks `Clear`/`Close` range over: objects still in the name table -/
 def inTable (s : Sched) (i : Nat) : Bool := decide (i < s.nobjs) && decide (s.table (s.objs i).name = some i)
@@ -164,10 +190,12 @@ def inTable (s : Sched) (i : Nat) : Bool := decide (i < s.nobjs) && decide (s.ta
 def clear (s : Sched) : Sched :=
   { s with objs := fun i => if inTable s i then (s.objs i).close else s.objs i, table := fun _ => none }
 
-/-- `Close()`: as `Clear`, then `wheel.Stop()` — `close(tw.exitC)` panics when called twice -/
+/-- `Close()`: as `Clear`; the first call marks the scheduler closed and stops the wheel (since
+    `1e829e9` in a goroutine of its own: `timingwheel.Stop` can block for ever, see `MV.Findings.C08`);
+    further calls only clear.  Never panics any more (the `Out` is kept for the protocol). -/
 def close (s : Sched) : Sched × Out :=
   let s1 := clear s
-  if s.stopped then (s1, .panic) else ({ s1 with stopped := true }, .ok)
+  if s.stopped then (s1, .ok) else ({ s1 with stopped := true }, .ok)
 
 /-- `caller()`: honours `kill` (nobody sets `separate`), the `trigger > total` unregistration, then
     `function.Call` -/
@@ -180,11 +208,7 @@ def caller (s : Sched) (i e : Nat) : Sched :=
 
 /-- the closure `ScheduleFunc` gives the timer: `Next(t.expiration)`, re-add, then `f()` -/
 def timerTask (s : Sched) (i e : Nat) : Sched :=
-  let t := s.objs i
-  let t1 : Task := match t.next e with
-    | some e' => { t.bump with timer := .pending e' }
-    | none => { t.bump with timer := .idle }
-  caller { s with objs := upd s.objs i t1 } i e
+  caller { s with objs := upd s.objs i ((s.objs i).fire e) } i e
 
 /-- the library bound: a timer with expiration `e` may leave the wheel at time `now` -/
 def due (tick e now : Nat) : Bool := decide (e - e % tick ≤ now)
@@ -202,6 +226,24 @@ inductive Ev where
   | run (i : Nat)
   deriving Repr
 
+def advance (s : Sched) (dt : Nat) : Sched := { s with now := s.now + dt }
+
+/-- the wheel flushes the bucket of timer `i`: the timer leaves the wheel, `go t.task()` is started -/
+def expire (s : Sched) (i : Nat) : Sched :=
+  if s.stopped then s else
+  match (s.objs i).timer with
+  | .pending e =>
+    if i < s.nobjs ∧ due s.tick e s.now then
+      { s with objs := upd s.objs i { s.objs i with timer := .inflight e } }
+    else s
+  | _ => s
+
+/-- the goroutine of timer `i` executes `t.task()` -/
+def runTimer (s : Sched) (i : Nat) : Sched :=
+  match (s.objs i).timer with
+  | .inflight e => if i < s.nobjs then timerTask s i e else s
+  | _ => s
+
 /-- one step; events whose precondition does not hold leave the state unchanged -/
 def step (s : Sched) : Ev → Sched × Out
   | .reg n a iv times => (register s n a iv none times, .ok)
@@ -209,19 +251,9 @@ def step (s : Sched) : Ev → Sched × Out
   | .unreg n => (unregister s n, .ok)
   | .clear => (clear s, .ok)
   | .close => close s
-  | .advance dt => ({ s with now := s.now + dt }, .ok)
-  | .expire i =>
-    if s.stopped then (s, .ok) else
-    match (s.objs i).timer with
-    | .pending e =>
-      if i < s.nobjs ∧ due s.tick e s.now then
-        ({ s with objs := upd s.objs i { s.objs i with timer := .inflight e } }, .ok)
-      else (s, .ok)
-    | _ => (s, .ok)
-  | .run i =>
-    match (s.objs i).timer with
-    | .inflight e => if i < s.nobjs then (timerTask s i e, .ok) else (s, .ok)
-    | _ => (s, .ok)
+  | .advance dt => (advance s dt, .ok)
+  | .expire i => (expire s i, .ok)
+  | .run i => (runTimer s i, .ok)
 
 def runEvents (s : Sched) : List Ev → Sched
   | [] => s
